@@ -292,10 +292,10 @@ def run_cross_thread(ctx, exe):
     # directed: realloc of a huge object (alone in its region: the mremap path) to sizes just below bin boundaries, by a thread whose large-object shuffle index has advanced
     MB = 1 << 20
     dir_cases = []
-    for W in ([37, 300] if ctx.quick() else [0, 5, 37, 150, 300]):
+    for W in ([37, 300] if ctx.quick() else [0, 37, 300]):
         for S1 in ([41 * MB] if ctx.quick() else [20 * MB, 41 * MB]):
-            for M in ([3 * MB, 12 * MB, 24 * MB] if ctx.quick() else [2 * MB, 3 * MB, 4 * MB, 6 * MB, 8 * MB, 12 * MB, 16 * MB, 24 * MB, 32 * MB]):
-                for d in ([40, 168, 1000] if ctx.quick() else [8, 40, 104, 168, 232, 1000, 4000, 8200]):
+            for M in ([3 * MB, 12 * MB, 24 * MB] if ctx.quick() else [2 * MB, 3 * MB, 6 * MB, 12 * MB, 16 * MB, 24 * MB]):
+                for d in ([40, 168, 1000] if ctx.quick() else [8, 40, 168, 1000, 8200]):
                     ops = []
                     for w in range(W):
                         ops += [1, 65536 + (w * 7919) % (900 * 1024), 0]
